@@ -579,4 +579,6 @@ def run(P, R, tier):
     # blanks and terminates each word in place
     from . import c08 as _c08t
     _c08t.line_buffer_writes(P, R, 'C09.WMC.5')
+    # what the daemon's own senders print is what they were given: each conversion gets an argument of its width and kind
+    rules.fmt_args_agree(P, R, 'C09.FMT.4', {'iauth_send': 1, 'iauth_report_config': 1, 'iauth_report_stats': 1, 'iauth_x_query': 2})
     return EXPLANATION, ASSUMPTIONS
